@@ -109,6 +109,7 @@ TOK["S"] = ("ctl", [(0x11, 0x37)])          # special character: musical note
 TOK["X"] = ("ctl", [(0x41, 0x00), (0x12, 0x20)])   # extended character A acute, preceded by its fall-back 'A' which it replaces
 TOK["C2"] = ("c2", [R6.ctrl("EDM", channel=2)])                        # a channel-2 control code
 TOK["C2P"] = ("c2", [R6.pac(14, indent=0, channel=2), (0x7A, 0x7A)])   # a channel-2 PAC followed by its text
+TOK["F2"] = ("c2", [(0x15, 0x2C)])                                     # the field-2 form of a control code (EDM): belongs to no field-1 channel
 TOK["N"] = ("nul", [(0x00, 0x00)])
 NL_TOKENS = ("NL0", "NL1", "NL40")          # line break: next time code = end of line + 0 / 1 / 40 frames
 
@@ -180,7 +181,7 @@ PROFILES = {
               chars=(), bs=False, der=False, enm=True, edm=True, neutral=(), nl=False, doubling="always", rate="n", reuse=False),
   # decorations: single / doubled control codes x null and channel-2 interleaving x line breaks, both time code kinds
   "deco-n": dict(styles=("RCL", "RU2", "RDC"), pacs=("P15i0",), tos=("TO1",), mids=("Mit",), texts=("Tab",),
-                 chars=("S", "X"), bs=True, der=False, enm=False, edm=True, neutral=("N", "C2", "C2P"), nl=True,
+                 chars=("S", "X"), bs=True, der=False, enm=False, edm=True, neutral=("N", "C2", "C2P", "F2"), nl=True,
                  doubling="both", rate="n", reuse=False),
   "deco-d": dict(styles=("RCL", "RU2", "RDC"), pacs=("P14i8",), tos=(), mids=(), texts=("Tab",),
                  chars=("S",), bs=True, der=False, enm=False, edm=True, neutral=("N", "C2"), nl=True,
@@ -464,7 +465,7 @@ def _proj_context(ctx):
   pw = ctx.previous_word
   return (ctx.current_style.name, ctx.roll_up_depth, ctx.active_cursor,
           (pw.value if pw is not None else None), getattr(ctx.previous_word_type, "__name__", None),
-          ctx.current_channel.name, repr(ctx.current_color), repr(ctx.current_font_style), repr(ctx.current_text_decoration),
+          getattr(ctx.current_channel, "name", None), repr(ctx.current_color), repr(ctx.current_font_style), repr(ctx.current_text_decoration),
           _proj_caption(ctx.buffered_caption), _proj_caption(ctx.active_caption), tuple(regions))
 
 
@@ -1066,7 +1067,8 @@ def convention_breaks(rend, view, refs):
     for w in ws:
       acted = refs[g + 1][3]
       g += 1
-      if acted == "ignored-dup" and not (w >> 8) & 0x08:       # redundant copy of a channel-1 control code
+      field2 = ((w >> 8) & 0x77) == 0x15 and 0x20 <= (w & 0x7F) <= 0x2F
+      if acted == "ignored-dup" and not (w >> 8) & 0x08 and not field2:       # redundant copy of a channel-1 control code
         continue
       cnt += 1
       allowed.add(k + cnt)
@@ -1129,7 +1131,7 @@ def _attribute(history, prof, rend, view, findings, out):
       clause = "C08.backspace"
     elif ck == "X":
       clause = "C08.extended"
-    elif ck in ("N", "C2", "C2P"):
+    elif ck in ("N", "C2", "C2P", "F2"):
       clause = "C08.chan2"
     elif culprit.endswith("+"):
       alt = history[:idx] + [base_tok(culprit)] + history[idx + 1:]
